@@ -1,7 +1,8 @@
-// Command vh is the correspondence harness: `vh <property> -seed N -tier quick|thorough -out DIR`
+// Package vh is the shared main of the correspondence harness binaries (one per property group):
+// `<bin> <property> -seed N -tier quick|thorough -out DIR`
 // runs the implementation in /repo's working tree on generated inputs and writes, for the Coq
 // side, the inputs together with what was observed.
-package main
+package vh
 
 import (
 	"flag"
@@ -12,16 +13,20 @@ import (
 	"github.com/smart-core-os/sc-golang/verifharness/vcoq"
 )
 
-type genFunc func(o *vcoq.Out, r *vcoq.Rand, tier string) error
+type GenFunc func(o *vcoq.Out, r *vcoq.Rand, tier string) error
 
-var registry = map[string]genFunc{}
+var registry = map[string]GenFunc{}
 
-func register(id string, f genFunc) { registry[id] = f }
+// Register adds the generator of one property.
+func Register(id string, f GenFunc) { registry[id] = f }
+
+// RegisterTranslator adds a translator that (re)generates one or more coq/theories/Gen/*.v files.
+func RegisterTranslator(name string, f func(outDir string) error) { translators[name] = f }
 
 // translators regenerate coq/theories/Gen/*.v from the working tree on every run
 var translators = map[string]func(outDir string) error{}
 
-func main() {
+func Main() {
 	if len(os.Args) < 2 {
 		usage()
 	}
